@@ -212,6 +212,50 @@ fn main() {
         "window" => window(&a[2], a[3].parse().unwrap()),
         // filter <neg 0|1> <Op> <xclass> <x> <litclass> <lit>: does `.where(expr)` accept the event iff a one-step sequence with the same
         // filter (translated by the real expr_to_sase_predicate, matched by the real SaseEngine) matches it?
+        "backpressure" => {
+            // backpressure <strategy> <max_runs> <rate_bits> <partitioned 0|1> <nruns>: bounded probe of the run-count bound through the
+            // public API: SEQ(A, B, C) with many A's (each starts a run) mixed with B's (progress), with and without partition_by;
+            // after every event the number of partial matches (per partition) must not exceed max_runs; panics are caught.
+            use varpulis_runtime::sase::{BackpressureStrategy, SaseEngine, SasePattern};
+            let strat = |name: &str, rate: f64| match name { "Drop" => BackpressureStrategy::Drop, "Error" => BackpressureStrategy::Error, "EvictOldest" => BackpressureStrategy::EvictOldest,
+                                                             "EvictLeastProgress" => BackpressureStrategy::EvictLeastProgress, _ => BackpressureStrategy::Sample { rate } };
+            let max_runs: usize = a[3].parse::<u64>().unwrap().clamp(1, 8) as usize;
+            let rate = f64::from_bits(a[4].parse().unwrap()); let rate = if rate.is_finite() { rate.clamp(0.0, 1.0) } else { 0.5 };
+            let mut bad: Vec<String> = Vec::new(); let mut count = 0usize;
+            for partitioned in [false, true] {
+                for maxr in [1usize, 2, max_runs, max_runs + 1] {
+                    for stream_id in 0..81u32 {       // streams of 4 symbols over {A, A', B}: ids in base 3, repeated 3 times
+                        let pat = SasePattern::Seq(vec![SasePattern::Event { event_type: "A".into(), predicate: None, alias: Some("a".into()) },
+                                                        SasePattern::Event { event_type: "B".into(), predicate: None, alias: Some("b".into()) },
+                                                        SasePattern::Event { event_type: "C".into(), predicate: None, alias: Some("c".into()) }]);
+                        let mut eng = SaseEngine::new(pat).with_max_runs(maxr).with_backpressure(strat(&a[2], rate));
+                        if partitioned { eng = eng.with_partition_by("k".into()) }
+                        let r = std::panic::catch_unwind(std::panic::AssertUnwindSafe(|| {
+                            let mut x = stream_id; let mut worst = 0usize;
+                            for rep in 0..12 {
+                                let sym = x % 3; x = x / 3 + if rep % 4 == 3 { stream_id } else { 0 };
+                                let ev = match sym { 0 => Event::new("A").with_field("k", Value::Int(1)), 1 => Event::new("A").with_field("k", Value::Int((rep % 2) as i64)), _ => Event::new("B").with_field("k", Value::Int(1)) };
+                                let _ = eng.process(&ev);
+                                let st = eng.extended_stats();
+                                let per = if partitioned { (st.active_runs + st.partitions.max(1) - 1) / st.partitions.max(1) } else { st.active_runs };
+                                let limit = if partitioned { maxr * st.partitions.max(1) } else { maxr };
+                                if st.active_runs > limit { worst = worst.max(st.active_runs) }
+                                let _ = per;
+                            }
+                            worst
+                        }));
+                        count += 1;
+                        match r {
+                            Err(_) => bad.push(format!("panic with strategy {} max_runs {maxr} partitioned {partitioned} stream {stream_id}", a[2])),
+                            Ok(w) if w > 0 => bad.push(format!("{w} partial matches with max_runs {maxr} (strategy {}, partitioned {partitioned}, stream {stream_id})", a[2])),
+                            _ => {}
+                        }
+                        if bad.len() > 3 { break }
+                    }
+                }
+            }
+            if bad.is_empty() { println!("OK backpressure {}: {count} streams stay within max_runs", a[2]) } else { println!("REPRODUCED backpressure: {}", bad.join("; ")) }
+        }
         "ckpt" => {
             // ckpt <Value description> <timestamp_ns>: Event -> SerializableEvent -> codec JSON bytes -> SerializableEvent -> Event
             use varpulis_runtime::persistence::SerializableEvent;
